@@ -51,7 +51,14 @@ def dispatchC05M (op : String) (j : Json) : M Json := do
   | "z_history" => do
       let E ← envOf j
       let thr ← fRat j "thr"
-      let prim ← getField j "prim" >>= parsePrim
+      -- the operand: one primitive spectrum, or the source an expression program yields (a composite)
+      let pj ← getField j "prim"
+      let prim ← match fOpt pj "prim" with
+        | some _ => parsePrim pj
+        | none => do
+            match (← evalExpr pj) with
+            | .ok (.spec s) => pure s
+            | _ => throw "z_history operand is not a spectrum"
       let steps ← fArr j "steps"
       let mut zs := prim.zs
       let mut outs : Array Json := #[]
